@@ -1522,6 +1522,49 @@ def _d5(ctx):
                           'ProcessingRule (which drops `linked` contexts) does not see it' % (norm_text(inl)[:30], norm_text(lnk)[:30]), f_.loc(c_))
         if n_lc < 4:
             raise AnalysisError('expected the LinkContext constructions of the html, css, javascript and sitemap scrapers (found %d)' % n_lc)
+        # the HTML scraper hands the walker's verdicts through (inline=link_info.inline, linked=link_info.linked): the walker's table
+        # gives every (tag, attribute) at least one of the two flags, and its two fall-backs are complementary
+        ew = repo.cls('wpull.scraper.html:ElementWalker')
+        tbl = ew.class_assigns.get('TAG_ATTRIBUTES')
+        flags = {}
+        for nm in ('ATTR_INLINE', 'ATTR_HTML'):
+            v_ = ew.class_assigns.get(nm)
+            if isinstance(v_, ast.Constant) and isinstance(v_.value, int):
+                flags[nm] = v_.value
+
+        def flagval(e):
+            if isinstance(e, ast.Name) and e.id in flags:
+                return flags[e.id]
+            if isinstance(e, ast.Constant) and isinstance(e.value, int):
+                return e.value
+            if isinstance(e, ast.BinOp) and isinstance(e.op, ast.BitOr):
+                a_, b_ = flagval(e.left), flagval(e.right)
+                return None if a_ is None or b_ is None else a_ | b_
+            return None
+        if isinstance(tbl, ast.Dict) and len(flags) == 2:
+            neither = []
+            for tk, tv in zip(tbl.keys, tbl.values):
+                if isinstance(tv, ast.Dict):
+                    for ak, av in zip(tv.keys, tv.values):
+                        fv = flagval(av)
+                        if fv is None or not fv & (flags['ATTR_INLINE'] | flags['ATTR_HTML']):
+                            neither.append('%s[%s]' % (getattr(tk, 'value', '?'), getattr(ak, 'value', '?')))
+            ck.expect(not neither, 'C20-D5b', ew.qual, 'every (tag, attribute) of the link table is inline or a link',
+                      'the table entry %s carries neither ATTR_INLINE nor ATTR_HTML: such links are followed but escape the nofollow test' % ', '.join(neither[:4]),
+                      ew.module.path)
+            fb = {}
+            for nm, flag in (('is_link_inline', 'ATTR_INLINE'), ('is_html_link', 'ATTR_HTML')):
+                m_ = ew.methods.get(nm)
+                rets = [r for r in walk_no_nested(m_.node) if isinstance(r, ast.Return)] if m_ is not None else []
+                last = rets[-1].value if rets else None
+                if isinstance(last, ast.Compare) and len(last.ops) == 1 and isinstance(last.comparators[0], ast.Constant):
+                    fb[nm] = (type(last.ops[0]).__name__, last.comparators[0].value)
+            okfb = len(fb) == 2 and fb['is_link_inline'][1] == fb['is_html_link'][1] and {fb['is_link_inline'][0], fb['is_html_link'][0]} == {'Eq', 'NotEq'}
+            ck.expect(okfb, 'C20-D5b', ew.qual, 'the fall-backs of is_link_inline / is_html_link are complementary',
+                      'for an attribute outside the table the two fall-back tests (%s) are not each other\'s negation: a link can be neither inline nor '
+                      'linked and escapes the nofollow test' % (fb,), ew.module.path)
+        else:
+            raise AnalysisError('ElementWalker.TAG_ATTRIBUTES / ATTR_* not found as class constants')
     # ---- (b) removal in scrape: when the consumer drops the linked URLs of every result under the published flag (b''), a removal inside
     #      the scraper is a second line of defence; what it lacks is then reported as a remark, not as a violation of the property
     class _Soft:
